@@ -597,7 +597,16 @@ class PeerConnection:
                     self.msg_dump.received(message)
                     self.logger.info(f"received a message: {message}")
 
-                    self.__dispatch_message(message)
+                    try:
+                        self.__dispatch_message(message)
+                    except Exception as e:
+                        # the handler is expected to deal with its own
+                        # failures; whatever still escapes must not end this
+                        # thread, the connection would stay open with nobody
+                        # reading from it
+                        self.logger.error(
+                            f"failed to handle a received message: {e}",
+                            exc_info=True)
 
                 # stop consuming buffer if we do not have enough bytes left for
                 # a message header
